@@ -1,8 +1,11 @@
-// Harness for C07: builds real action values (lunar/engine/actions), folds them exactly like
-// routing.getSPOEReqActions / getSPOERespActions and runner.runOnRequest / runOnResponse do
-// (`acc = &NoOpAction{}; for a in list { a.Ensure…IsUpdated(&args); acc = acc.XPrioritize(a) }`),
-// and after every fold step prints the accumulated action and its real SPOE encoding
-// (ReqToSpoeActions / RespToSpoeActions).  Everything that came out of a Go map is printed sorted.
+// Harness for C07: builds real action values (lunar/engine/actions) and
+//   - hands them to the REAL fold sites routing.getSPOEReqActions / getSPOERespActions (through the
+//     verif-tagged exports routing.VerifSPOEReqActions / VerifSPOERespActions) and prints the SPOE
+//     variables they return (ops `reqsite` / `respsite`);
+//   - as a cross-check that also shows every intermediate result, folds them step by step with the
+//     same three-line loop (`acc = &NoOpAction{}; a.Ensure…IsUpdated(&args); acc = acc.XPrioritize(a)`)
+//     and prints the accumulated action and its real encoding after every step (ops `rq` / `rs`).
+// Everything that came out of a Go map is printed sorted.
 package main
 
 import (
@@ -13,6 +16,7 @@ import (
 
 	"lunar/engine/actions"
 	messages "lunar/engine/messages"
+	"lunar/engine/routing"
 
 	spoe "github.com/negasus/haproxy-spoe-go/action"
 	"github.com/rs/zerolog"
@@ -326,6 +330,79 @@ func exec(c proto.Case, o *proto.Out) []string {
 				break
 			}
 			outs[i] = "act " + fmtAction(respAcc) + " " + fmtSpoe(respAcc.RespToSpoeActions())
+		case w[0] == "reqsite":
+			var list []actions.ReqLunarAction
+			errAns := ""
+			for _, n := range w[1:] {
+				obj, ok := objs[n]
+				if !ok {
+					errAns = "err:unknown-object"
+					break
+				}
+				a, ok := obj.(actions.ReqLunarAction)
+				if !ok {
+					errAns = "err:not-request-action"
+					break
+				}
+				list = append(list, a)
+			}
+			if errAns != "" {
+				outs[i] = errAns
+				break
+			}
+			nn := 0
+			for k, a := range list {
+				o.Count("site-req:" + kindOf(a))
+				if kindOf(a) != "noop" {
+					nn++
+				}
+				if k > 0 {
+					o.Count("site-req-pair:" + kindOf(list[k-1]) + ">" + kindOf(a))
+				}
+				if used[w[1+k]] {
+					o.Count("req-object-reused")
+				}
+				used[w[1+k]] = true
+			}
+			if nn >= 2 {
+				nontrivial = true
+			}
+			// neutral transaction arguments: the site calls EnsureRequestIsUpdated(&args) on every
+			// action and on the result; that writes to args only
+			args := messages.OnRequest{Headers: map[string]string{}}
+			outs[i] = fmtSpoe(routing.VerifSPOEReqActions(args, list))
+		case w[0] == "respsite":
+			var list []actions.RespLunarAction
+			errAns := ""
+			for _, n := range w[1:] {
+				obj, ok := objs[n]
+				if !ok {
+					errAns = "err:unknown-object"
+					break
+				}
+				a, ok := obj.(actions.RespLunarAction)
+				if !ok {
+					errAns = "err:not-response-action"
+					break
+				}
+				list = append(list, a)
+			}
+			if errAns != "" {
+				outs[i] = errAns
+				break
+			}
+			nn := 0
+			for _, a := range list {
+				o.Count("site-resp:" + kindOf(a))
+				if kindOf(a) != "noop" {
+					nn++
+				}
+			}
+			if nn >= 2 {
+				nontrivial = true
+			}
+			args := messages.OnResponse{Headers: map[string]string{}}
+			outs[i] = fmtSpoe(routing.VerifSPOERespActions(args, list))
 		case w[0] == "show" && len(w) == 2:
 			obj, ok := objs[w[1]]
 			if !ok {
@@ -373,7 +450,7 @@ var respReps = []string{
 }
 
 // enumerate emits every sequence over reps of length 0..maxLen as one case each.
-func enumerate(prefix string, reps []string, step, start string, maxLen int, emit func(proto.Case)) {
+func enumerate(prefix string, reps []string, step, start, site string, maxLen int, emit func(proto.Case)) {
 	n := len(reps)
 	idx := make([]int, 0, maxLen)
 	id := 0
@@ -387,6 +464,13 @@ func enumerate(prefix string, reps []string, step, start string, maxLen int, emi
 		for k := range idx {
 			ops = append(ops, fmt.Sprintf("%s o%d", step, k))
 		}
+		// the same sequence, fresh objects, through the real fold site
+		site := site
+		for k, r := range idx {
+			ops = append(ops, fmt.Sprintf("obj p%d %s", k, reps[r]))
+			site += fmt.Sprintf(" p%d", k)
+		}
+		ops = append(ops, site)
 		id++
 		emit(proto.Case{ID: fmt.Sprintf("%s%d", prefix, id), Ops: ops})
 		if len(idx) == maxLen {
@@ -430,6 +514,18 @@ func enumerateAliased(maxLen int, emit func(proto.Case)) {
 			ops = append(ops, "reqstart", "rq k", "rq m")
 			id++
 			emit(proto.Case{ID: fmt.Sprintf("ea%d", id), Ops: ops})
+			// the same through the real fold site
+			ops = append([]string{}, defs...)
+			site := "reqsite"
+			for _, i := range idx {
+				site += " " + names[i]
+			}
+			ops = append(ops, site)
+			for _, n := range names {
+				ops = append(ops, "show "+n)
+			}
+			ops = append(ops, "reqsite k m")
+			emit(proto.Case{ID: fmt.Sprintf("eb%d", id), Ops: ops})
 		}
 		if len(idx) == maxLen {
 			return
@@ -529,19 +625,32 @@ func genRandom(r *prng.R, id string, maxLen int) proto.Case {
 	for k := 0; k < m; k++ {
 		ops = append(ops, fmt.Sprintf("obj s%d %s", k, genRespObj(r, unsafePct)))
 	}
-	ops = append(ops, "reqstart")
+	viaSite := r.Chance(60)
+	reqOps, respOps := []string{"reqstart"}, []string{"respstart"}
+	reqSite, respSite := "reqsite", "respsite"
 	for k := 0; k < n; k++ {
-		ops = append(ops, fmt.Sprintf("rq q%d", k))
+		reqOps = append(reqOps, fmt.Sprintf("rq q%d", k))
+		reqSite += fmt.Sprintf(" q%d", k)
 		if alias && k > 0 && r.Chance(30) {
-			ops = append(ops, fmt.Sprintf("rq q%d", r.Intn(k+1)))
+			j := r.Intn(k + 1)
+			reqOps = append(reqOps, fmt.Sprintf("rq q%d", j))
+			reqSite += fmt.Sprintf(" q%d", j)
 		}
 	}
-	ops = append(ops, "respstart")
 	for k := 0; k < m; k++ {
-		ops = append(ops, fmt.Sprintf("rs s%d", k))
+		respOps = append(respOps, fmt.Sprintf("rs s%d", k))
+		respSite += fmt.Sprintf(" s%d", k)
 		if alias && k > 0 && r.Chance(30) {
-			ops = append(ops, fmt.Sprintf("rs s%d", r.Intn(k+1)))
+			j := r.Intn(k + 1)
+			respOps = append(respOps, fmt.Sprintf("rs s%d", j))
+			respSite += fmt.Sprintf(" s%d", j)
 		}
+	}
+	if viaSite {
+		ops = append(ops, reqSite, respSite)
+	} else {
+		ops = append(ops, reqOps...)
+		ops = append(ops, respOps...)
 	}
 	if alias || r.Chance(10) {
 		for k := 0; k < n; k++ {
@@ -550,11 +659,18 @@ func genRandom(r *prng.R, id string, maxLen int) proto.Case {
 	}
 	if alias && n > 0 {
 		// a second fold over (some of) the same objects
-		ops = append(ops, "reqstart")
+		second := []string{"reqstart"}
+		site2 := "reqsite"
 		for k := 0; k < n; k++ {
 			if r.Chance(70) {
-				ops = append(ops, fmt.Sprintf("rq q%d", k))
+				second = append(second, fmt.Sprintf("rq q%d", k))
+				site2 += fmt.Sprintf(" q%d", k)
 			}
+		}
+		if viaSite {
+			ops = append(ops, site2)
+		} else {
+			ops = append(ops, second...)
 		}
 	}
 	return proto.Case{ID: id, Ops: ops}
@@ -571,6 +687,7 @@ var malformed = [][]string{
 	{"obj a modhdr h=" + hA, "respstart", "rs a", "rq a"},
 	{"rq", "rs", "show", "obj", "obj a", "reqstart now"},
 	{"obj a modhdr h=x|1;x|2", "rq a", "show a"},
+	{"obj a modhdr h=" + hA, "obj r retry h=" + hB, "reqsite", "respsite", "reqsite a r", "respsite r a", "reqsite a nobody", "respsite nobody r", "reqsite r nobody"},
 }
 
 func gen(r *prng.R, f proto.Flags, emit func(proto.Case)) {
@@ -581,8 +698,8 @@ func gen(r *prng.R, f proto.Flags, emit func(proto.Case)) {
 	if f.Tier == "thorough" {
 		reqLen, respLen, nRand, randLen = 5, 6, 30000, 16
 	}
-	enumerate("eq", reqReps, "rq", "reqstart", reqLen, emit)
-	enumerate("es", respReps, "rs", "respstart", respLen, emit)
+	enumerate("eq", reqReps, "rq", "reqstart", "reqsite", reqLen, emit)
+	enumerate("es", respReps, "rs", "respstart", "respsite", respLen, emit)
 	enumerateAliased(reqLen, emit)
 	nRand *= f.Budget
 	for k := 0; k < nRand; k++ {
